@@ -292,7 +292,11 @@ func shortHash(s string) string {
 // the process exit code.
 func (r *Run) Finish() int {
 	wall := time.Since(r.start).Seconds()
-	os.MkdirAll(filepath.Join(verifRoot, "evidence"), 0o755)
+	evdir := filepath.Join(verifRoot, "evidence")
+	if d := os.Getenv("VERIF_EVIDENCE_DIR"); d != "" {
+		evdir = d // trial runs against seeded changes must not overwrite the committed evidence
+	}
+	os.MkdirAll(evdir, 0o755)
 	os.MkdirAll(filepath.Join(verifRoot, "replays"), 0o755)
 
 	sigs := make([]string, 0, len(r.viol))
@@ -365,7 +369,7 @@ func (r *Run) Finish() int {
 		"violations":  len(r.viol),
 	}
 	b, _ := json.MarshalIndent(ev, "", " ")
-	evp := filepath.Join(verifRoot, "evidence", r.ID+".json")
+	evp := filepath.Join(evdir, r.ID+".json")
 	if err := os.WriteFile(evp, append(b, '\n'), 0o644); err != nil {
 		fmt.Fprintln(os.Stderr, "cannot write evidence:", err)
 		return 2
